@@ -630,7 +630,7 @@ func (e *SpecEnv) call(n *ast.CallExpr) TV {
 		}
 		k := e.coerce(arg(1), mt.Key())
 		dom, _, _ := vc.mapArrs(mt)
-		return TV{T: fmt.Sprintf("(select (select %s %s) %s)", e.curHeap().get(dom), m.T, k.T), Ty: tBool}
+		return TV{T: fmt.Sprintf("(and (not (= %s 0)) (select (select %s %s) %s))", m.T, e.curHeap().get(dom), m.T, k.T), Ty: tBool}
 	case "typeis":
 		v := arg(0)
 		t := e.resolveType(n.Args[1])
